@@ -84,7 +84,7 @@ def run_parse_part(ck, tree):
         per = total // nproc
         core.write_json(sf, {'mirror': tree.mirror, 'seed': ck.seed, 'chunk': i, 'out': out, 'dir': os.path.join(d, 'src%d' % i),
                              'n_value': per // 2, 'n_list': per // 3, 'n_env': per // 6, 'n_header': n_header // nproc})
-        r = core.run([core.PY, '-m', 'props.C41_worker', sf], env=tree.env(), timeout=ck.pick(900, 3000), as_gb=6)
+        r = core.run([core.PY, '-m', 'props.C41_worker', sf], env=tree.env(), timeout=ck.pick(1500, 7200), as_gb=6)
         if r.rc != 0 or not os.path.exists(out):
             return {'fatal': 'parse worker %d failed rc=%s timed_out=%s: %s' % (i, r.rc, r.timed_out, (r.err or '')[-500:])}
         return core.read_json(out)
